@@ -6,7 +6,9 @@ RULE = ("Coq: Properties/C08.v (interrupt_transparent; interrupted_run_equiv for
         "each generated program the uninterrupted run gives N ticks; then the interrupt flag is raised (cfg-gated hook in the "
         "eval loop) at EVERY tick k in 1..N (exhaustive over k), and at random 2- and 3-point schedules, each run resumed "
         "until it finishes; final outcome, error position and complete stdout must equal the uninterrupted run's. A sample is "
-        "also run through the extracted model. Non-trivial = the run was actually interrupted at least once.")
+        "also run through the extracted model. The real session path (one `run` request through reftest-json-session with the "
+        "interrupt injected at sampled ticks via GARDEN_VERIF_INTERRUPT_AT, then :resume) must answer with the same value "
+        "and the same complete stdout as the uninterrupted request. Non-trivial = the run was actually interrupted at least once.")
 META = {
     "technique": "Coq proof by induction over interrupt schedules on the evaluator model + exhaustive per-tick interrupt injection on the binary",
     "level_text": ("Coq theorem interrupted_run_equiv: for ALL interrupt schedules (any number of Ctrl-C at any loop iterations, "
@@ -76,6 +78,9 @@ def run(ctx):
     ints = [meta[i][2] for i in idx]
     # run_both takes one resume count: use the maximum needed
     res = machine.correspondence(ctx, srcs, "interrupted", resume=5, interrupts=ints, fuel=150000)
+    sprogs = progs[:len(progs) if ctx.thorough else 10] + SESSION_PROGS
+    sbase = oracle.batch(exe, [{"op": "run", "src": s, "tick_limit": 100000} for s in sprogs], timeout=600)
+    session_stage(ctx, exe, sprogs, sbase)
     # the real session path: interrupt request then :resume
     src = 'let i = 0\nwhile i < 20000 { i += 1 }\nprintln("done")\ni\n'
     rs, died, err, rc = oracle.run_history(exe, [{"method": "interrupt"}, {"method": "run", "input": src}, {"method": "run", "input": ":resume"}])
@@ -90,8 +95,89 @@ def run(ctx):
             ctx.violation("C08:session-resume", "interrupt; run; :resume did not finish with 20000: %s" % rs, {"observed": rs})
 
 
+SESSION_PROGS = [
+    'fun a(): Int { println("enter a") let r = 1 println("leave a") r }\nprintln(string_repr(a()))\nprintln("second")\nfun c(): Int { println("enter c") 101 }\nc()\n',
+    'fun f(n) { let t = 0 for x in [1, 2, 3] { t = t + x * n } t }\nlet u = f(2)\nprintln(string_repr(u))\nlet w = f(u) + 1\n[u, w]\n',
+    'fun g(n) { if n == 0 { return 0 } 1 + g(n - 1) }\nprintln("one")\nlet a = g(4)\nprintln("two")\nlet b = [g(1), g(2)]\n(a, b)\n',
+    'let i = 0\nwhile i < 5 { i += 1 }\nprintln(string_repr(i))\nlet l = [1, 2].map(fun(x) { x + i })\nl\n',
+]
+MARK = "and the expression evaluated to "
+
+
+def session_value(c):
+    v = c.get("value")
+    if c.get("kind") != "ok" or v is None:
+        return (c.get("kind"), c.get("err_kind"), c.get("message"), tuple(c.get("position") or ()))
+    if MARK in v:
+        v = v.split(MARK, 1)[1]
+        v = v[:-1] if v.endswith(".") else v
+    elif v.startswith("Loaded "):
+        v = "<definitions only>"
+    return ("ok", v)
+
+
+def session_stage(ctx, exe, progs, base):
+    """The REAL session path (json_session::handle_request -> eval_toplevel_exprs_then_stop, which the hook op `run`
+    does not use): one `run` request with the whole program, the interrupt injected at tick k through
+    GARDEN_VERIF_INTERRUPT_AT (cfg-gated), then `:resume` until the request is answered; the complete stdout and the final
+    answer must equal those of the same request in an uninterrupted session."""
+    import concurrent.futures
+    rng = ctx.rng
+    jobs = []
+    for s, b in zip(progs, base):
+        n = (b or {}).get("ticks") or 40
+        ks = sorted(set(rng.sample(range(1, n + 2), min(n, 40 if ctx.thorough else 8))))
+        jobs.append((s, None))
+        jobs += [(s, k) for k in ks]
+
+    def one(job):
+        s, k = job
+        reqs = [{"method": "run", "input": s}] + ([{"method": "run", "input": ":resume"}] * 3 if k else [])
+        return oracle.run_history(exe, reqs, env={"GARDEN_VERIF_INTERRUPT_AT": str(k)} if k else None)
+    with concurrent.futures.ThreadPoolExecutor(common.NCPU) as ex:
+        res = list(ex.map(one, jobs))
+    ref = {}
+    for (s, k), (rs, died, err, rc) in zip(jobs, res):
+        if k is None:
+            ref[s] = (session_value(rs[0]) if rs else ("none",), rs[0].get("stdout") if rs else None, died)
+    for (s, k), (rs, died, err, rc) in zip(jobs, res):
+        if k is None:
+            continue
+        want_v, want_out, ref_died = ref[s]
+        if ref_died:
+            continue
+        ints = sum(1 for x in rs if x.get("kind") == "interrupted")
+        ctx.case({"src": s[:120], "session_interrupt_at": k, "interrupted_times": ints}, ints > 0)
+        ctx.stat("session: interrupted %d times" % ints)
+        if ints == 0:
+            continue
+        rep = {"input": s, "session_interrupt_at": k, "expected": [want_v, want_out],
+               "history": "GARDEN_VERIF_INTERRUPT_AT=%d garden reftest-json-session: run <input>; :resume; :resume; :resume" % k}
+        if died:
+            ctx.violation("C08:session-died-after-interrupt", "the session died after an interrupt at tick %d: %s" % (k, err[-300:]),
+                          dict(rep, observed=err[-600:]))
+            continue
+        ans = [x for x in rs if x.get("kind") != "interrupted"]
+        got_v = session_value(ans[0]) if ans else ("none",)
+        upto = rs.index(ans[0]) + 1 if ans else len(rs)
+        got_out = "".join(x.get("stdout", "") for x in rs[:upto])
+        if got_v != want_v or got_out != want_out:
+            ctx.violation("C08:session-interrupted-run-differs",
+                          "session: interrupt at tick %d then :resume answers %s with stdout %r; the uninterrupted request answers "
+                          "%s with stdout %r" % (k, got_v, got_out[-200:], want_v, (want_out or "")[-200:]),
+                          dict(rep, observed=[got_v, got_out], responses=[(x.get("kind"), x.get("value"), x.get("stdout")) for x in rs]))
+
+
 def replay(ctx, rp):
     exe = ctx.impl()
+    if "session_interrupt_at" in rp:
+        k = rp["session_interrupt_at"]
+        reqs = [{"method": "run", "input": rp["input"]}] + [{"method": "run", "input": ":resume"}] * 3
+        a = oracle.run_history(exe, reqs[:1])[0]
+        b = oracle.run_history(exe, reqs, env={"GARDEN_VERIF_INTERRUPT_AT": str(k)})[0]
+        print([session_value(x) for x in a], [(x.get("kind"), x.get("value"), x.get("stdout")) for x in b])
+        ans = [x for x in b if x.get("kind") != "interrupted"]
+        return 0 if ans and a and session_value(ans[0]) == session_value(a[0]) else 1
     a = oracle.batch(exe, [{"op": "run", "src": rp["input"]},
                            {"op": "run", "src": rp["input"], "interrupt_at": rp["interrupt_at"], "resume": len(rp["interrupt_at"]) + 2}])
     print(final(a[0]), final(a[1]))
